@@ -226,9 +226,24 @@ class Model:
             raise AnalysisError('anchor module %s not found in %s' % (modname, self.repo))
         return m
 
-    def module_functions(self, modname):
+    def module_functions(self, modname, dead=False):
+        """module-level functions; a private helper that was inlined at every use (its body now lives in its callers) is skipped unless dead=True"""
         m = self.mod(modname)
-        return [self.funcs[modname + '.' + n.name] for n in m.tree.body if isinstance(n, ast.FunctionDef)]
+        fs = [self.funcs[modname + '.' + n.name] for n in m.tree.body if isinstance(n, ast.FunctionDef)]
+        return fs if dead else [f for f in fs if not f.inlined_everywhere]
+
+    def live_funcs(self):
+        """every function / method / closure except private helpers that were inlined at every use (and the closures nested in them)"""
+        out = []
+        for f in self.funcs.values():
+            g, deadf = f, False
+            while g is not None:
+                if g.inlined_everywhere:
+                    deadf = True
+                g = g.parent
+            if not deadf:
+                out.append(f)
+        return out
 
     def nested(self, func):
         return [f for f in self.funcs.values() if f.parent is func]
